@@ -45,7 +45,7 @@ theorem failed_blocks_dependents (g : Graph) (s : S) (d f p : Nat)
     rw [hfail] at this; cases this
 
 /-- The want phase of the second part of an invocation cannot turn a Failed build back. -/
-theorem failed_is_final_in_want (g : Graph) (s s' : S) (f : Nat) (h : want g s f = .ok s') (b : Nat)
+theorem failed_is_final_in_want (g : Graph) (s s' : S) (f : Nat) (h : want g s f = .ok () s') (b : Nat)
     (hb : s.st b = .failed) : s'.st b = .failed :=
   ((want_lateEq' g s s' f h).1 b .failed (Or.inr (Or.inr (Or.inr rfl)))).mpr hb
 
